@@ -250,8 +250,10 @@ def policy(repo, tier):
     written = an.written_states()
     expected = {"pdf_extractor.py::_FONT_CACHE", "serialization.py::_TYPE_REGISTRY", "_pypdf_aes_fallback.py::_ROUND_KEY_CACHE", "archive_extractor.py::_config"}
     extra = sorted(set(written) - expected)
-    G("C15/package/policy#inventory-of-module-level-mutable-state", not extra and expected <= set(written) and an.converged,
-      f"mutated module-level objects: {written}" + (f"; NOT in the reviewed inventory: {extra}" if extra else ""), "package")
+    inv = ground_obligation("C15/package/policy#inventory-of-module-level-mutable-state", not extra and expected <= set(written) and an.converged,
+                            f"mutated module-level objects: {written}" + (f"; NOT in the reviewed inventory: {extra}" if extra else ""), "package")
+    inv["replay_hint"] = {"new_states": [{"state": x, "rel": rel_of.get(x), "writers": sorted({e["fn"][1] for e in an.writes(x)})} for x in extra]}
+    obls.append(inv)
 
     def hint(x, **kw):
         return dict({"state": x, "rel": rel_of.get(x), "functions": O.touching_functions(an, x)}, **kw)
@@ -387,8 +389,12 @@ def policy(repo, tier):
                             rebinders.append(f"{rel.split('/')[-1]}::{q} rebinds global {nm}")
     allowed = {"archive_extractor.py::configure_archive_extraction rebinds global _config"}
     extra_g = sorted(set(rebinders) - allowed)
-    G("C15/package/policy#no-module-level-name-is-rebound-by-extraction-code", not extra_g,
-      "; ".join(extra_g) or f"{len(rebinders)} rebinding site(s), all in the reviewed list", "package")
+    rb = ground_obligation("C15/package/policy#no-module-level-name-is-rebound-by-extraction-code", not extra_g,
+                           "; ".join(extra_g) or f"{len(rebinders)} rebinding site(s), all in the reviewed list", "package")
+    rb["replay_hint"] = {"context_managers": [[rel, q] for rel, m in mods.items() for q, fn in m.functions.items()
+                                              if any("contextmanager" in ast.unparse(d) for d in fn.decorator_list)
+                                              and f"{rel.split('/')[-1]}::{q}" in {r.split(" rebinds ")[0] for r in extra_g}]}
+    obls.append(rb)
     # H4: _config
     arch = mods[ARCH]
     writers = sorted({q for q, fn in arch.functions.items() if any(isinstance(n, ast.Global) and "_config" in n.names for n in _own(fn))}
